@@ -52,6 +52,7 @@ import XotModel.Props.C02
 import XotModel.Props.C04
 import XotModel.Lemmas.ReachE2E
 import XotModel.Lemmas.FparseHistReach
+import XotModel.Lemmas.FparseValsReach
 import XotModel.Lemmas.RepairRoundTrip
 
 namespace XotModel.Props
@@ -856,12 +857,15 @@ at every node, distinct `xml:id` values, `singleRoot`, `namesWritable`).  For th
 consequences of acceptance outside the two recorded guards (`C01_parse_serialise`).  For EDITED trees:
 `singleRoot`, distinct `xml:id`s and `namesWritable` can be destroyed by edits (append a second element to
 the document node; copy an attribute `xml:id`; remove a declaration — `create_missing_prefixes` restores the
-last one, `C10_reachable_repair_roundtrip`), so they are conditions on the result by nature.  `valueOK` at every
-node should follow from "the values handed to the API are in the XML domain"
-(`Forest.XCall.argValuesOK`, Model/FparseHist.lean) — new values come from the arguments, text consolidation only
-concatenates, `create_missing_prefixes` declares namespaces of registered names under generated NCNames —:
-that is `C01_edited_values_Statement` below, STATED, NOT PROVED (it needs a value-provenance theorem for
-every call of the forest model, which the development does not have). -/
+last one, `C10_reachable_repair_roundtrip`), so they are conditions on the result by nature.  `envOK` and
+`valueOK` at every node are THEOREMS when "the values handed to the API are in the XML domain"
+(`Forest.XCall.argValuesOK`, Model/FparseHist.lean, for the tables at the time of each call:
+`Store.argValuesOKAlong`) — `C01_edited_values`: every value of the edited store is a value of the parsed tree,
+a value handed to a call, a concatenation of text values (consolidation) or a declaration generated by
+`create_missing_prefixes` (a namespace of a registered name under a generated NCName; needs `nameTableOK`:
+every such namespace is declarable); value provenance for EVERY call of the forest model, Lemmas/FparseVals*.lean.
+`C01_parse_edit_serialise_values` is the composition: acceptance outside the guards + arguments in the domain +
+`singleRoot`, distinct `xml:id`s, `namesWritable` of the edited document ⇒ it round-trips. -/
 
 section ParseEditSerialise
 open XotModel.Repair
@@ -982,35 +986,61 @@ theorem C01_parse_serialise (env : Env) (henv : envOK env = true) (text : Str) (
   rcases List.mem_singleton.mp hc with rfl
   trivial
 
-/-- The conjecture for EDITED trees (stated, NOT proved): if the parsed tree is in the domain (acceptance
-    outside the guards), every namespace of a registered name is declarable (`nameTableOK`: the generated
-    declarations of `create_missing_prefixes` bind such namespaces) and the values handed to the API are in
-    the XML domain (`Forest.XCall.argValuesOK`, in the tables of the final store), then every node of every
-    tree of the final store has a value in the XML domain — the hypothesis `hval` of
-    `C01_parse_edit_serialise` would be discharged.  Missing: a value-provenance theorem for each call of the
-    forest model ("every value afterwards is a value before, an argument, a concatenation of two text
-    values, or a generated declaration"). -/
-def C01_edited_values_Statement : Prop :=
-  ∀ (env : Env) (text : Str) (p : Parsed) (cs : List Forest.XCall) (S : PStore),
-    envOK env = true → parseString .document env text = .ok p →
-    NoReservedDecls p.env p.tree = true → PlainPiTargets p.env p.tree = true →
-    (∀ c ∈ cs, c.wellKinded) → S = (PStore.init env).run (.parse .document text :: cs.map .api) →
-    nameTableOK S.env = true → (∀ c ∈ cs, c.argValuesOK S.env) →
-    ∀ r ∈ S.forest.roots, r.erase.allNodes (fun v _ => valueOK S.env v) = true
-
-/-- Its instance "no edit" is `C01_parse_serialise`'s: proved. -/
-theorem C01_edited_values_unedited (env : Env) (text : Str) (p : Parsed) (henv : envOK env = true)
+/-- ⟦C01_edited_values⟧ **The values of an edited tree are in the XML domain when the values handed to the API
+    are.**  A text accepted by `parse` on well-formed tables outside the two guards, every namespace of a
+    registered name declarable (`nameTableOK` of the tables after the parse: what `create_missing_prefixes`
+    may have to declare), then ANY well-kinded history of extended API calls whose argument values are in
+    the domain of the tables at the time of the call (`Store.argValuesOKAlong`: the value of a created node,
+    the entry of a map insertion, the strings of `set_text` / `set_comment` / `set_pi_data` / `set_text_content`,
+    the names of `element_wrap` / `set_element_name`, the declarations handed to `clone_with_prefixes`):
+    the tables of the resulting store are well formed (`envOK`; only the prefix table has grown since the
+    parse) and EVERY node of EVERY tree of the store has a value in the domain of those tables — the
+    hypotheses `henv`, `hval` of `C01_parse_edit_serialise`. -/
+theorem C01_edited_values (env : Env) (henv : envOK env = true) (text : Str) (p : Parsed)
     (h : parseString .document env text = .ok p) (hg : NoReservedDecls p.env p.tree = true)
-    (hpi : PlainPiTargets p.env p.tree = true) :
-    ∀ r ∈ ((PStore.init env).run [.parse .document text]).forest.roots,
-      r.erase.allNodes (fun v _ => valueOK ((PStore.init env).run [.parse .document text]).env v) = true := by
-  obtain ⟨h1, _, h3⟩ := PStore.fph_parse_init env h
-  intro r hr
-  rw [h1] at hr
-  rcases List.mem_singleton.mp hr with rfl
-  rw [h3, fph_erase_ofTree]
-  exact (fph_accepted_value_conditions henv h hg hpi).2.1
+    (hpi : PlainPiTargets p.env p.tree = true) (htab : nameTableOK p.env = true)
+    (cs : List Forest.XCall) (hw : ∀ c ∈ cs, c.wellKinded)
+    (ha : ((PStore.init env).run [.parse .document text]).store.argValuesOKAlong cs)
+    (S : PStore) (hS : S = (PStore.init env).run (.parse .document text :: cs.map .api)) :
+    envOK S.env = true ∧ PrefixExt p.env S.env ∧
+      ∀ r ∈ S.forest.roots, r.erase.allNodes (fun v _ => valueOK S.env v) = true := by
+  subst hS
+  exact fpvd_parse_then_edit henv h hg hpi htab cs hw ha
 
+/-- Without `create_missing_prefixes` steps the tables stay the parser's: the condition on the arguments
+    is a condition for those tables, stated once. -/
+theorem C01_edited_values_static (env : Env) (henv : envOK env = true) (text : Str) (p : Parsed)
+    (h : parseString .document env text = .ok p) (hg : NoReservedDecls p.env p.tree = true)
+    (hpi : PlainPiTargets p.env p.tree = true) (htab : nameTableOK p.env = true)
+    (cs : List Forest.XCall) (hw : ∀ c ∈ cs, c.wellKinded)
+    (hne : ∀ c ∈ cs, ∀ n, c ≠ .createMissingPrefixes n) (ha : ∀ c ∈ cs, c.argValuesOK p.env)
+    (S : PStore) (hS : S = (PStore.init env).run (.parse .document text :: cs.map .api)) :
+    envOK S.env = true ∧ ∀ r ∈ S.forest.roots, r.erase.allNodes (fun v _ => valueOK S.env v) = true := by
+  have h3 : ((PStore.init env).run [.parse .document text]).store.env = p.env := (PStore.fph_parse_init env h).2.2
+  obtain ⟨h1, _, h2⟩ := C01_edited_values env henv text p h hg hpi htab cs hw
+    (Store.fpvd_argValuesOKAlong_static cs _ hne (by rw [h3]; exact ha)) S hS
+  exact ⟨h1, h2⟩
+
+/-- ⟦C01_parse_edit_serialise_values⟧ **Parse, edit with values of the XML domain, serialise.**  What is left as
+    hypothesis on the EDITED document `r` is what edits can destroy and no argument condition can
+    guarantee: one top-level element and no top-level text (`singleRoot`), pairwise different `xml:id`
+    values, a usable prefix in scope for every namespaced name (`namesWritable`; `create_missing_prefixes`
+    as last step establishes it) — and that consolidation was never switched off.  Then `to_string`
+    succeeds and `parse` returns exactly the edited tree. -/
+theorem C01_parse_edit_serialise_values (env : Env) (henv : envOK env = true) (text : Str) (p : Parsed)
+    (h : parseString .document env text = .ok p) (hg : NoReservedDecls p.env p.tree = true)
+    (hpi : PlainPiTargets p.env p.tree = true) (htab : nameTableOK p.env = true)
+    (cs : List Forest.XCall) (hw : ∀ c ∈ cs, c.wellKinded)
+    (ha : ((PStore.init env).run [.parse .document text]).store.argValuesOKAlong cs)
+    (S : PStore) (hS : S = (PStore.init env).run (.parse .document text :: cs.map .api))
+    (hoff : S.forest.everOff = false)
+    (r : HTree) (hr : r ∈ S.forest.roots) (hdoc : r.value.isDocument = true)
+    (hid : (xmlIdValues S.env r.erase).Nodup) (hone : singleRoot r.erase = true)
+    (hwr : namesWritable S.env r.erase [] = some true) :
+    ∃ s p', toXmlString S.env r.erase [] = .ok s ∧ parseString .document S.env s = .ok p' ∧
+      p'.tree = r.erase ∧ p'.env = S.env ∧ deepEqual p'.tree r.erase = true := by
+  obtain ⟨h1, _, h2⟩ := C01_edited_values env henv text p h hg hpi htab cs hw ha S hS
+  exact C01_parse_edit_serialise env text cs hw S hS hoff r hr hdoc h1 (h2 r hr) hid hone hwr
 
 /-! Non-vacuity, closed (`decide +kernel`), from the tables of `Xot::new()` (`Env.fresh`): the histories `fullCalls`
     / `fullCallsB` of Props/C04.lean.  PARSE `<r xmlns:p="urn:a"><p:a>t</p:a></r>`, create a NEW ELEMENT `{urn:a}a`
@@ -1089,6 +1119,32 @@ example : ∃ p, parseString .document Env.fresh fullText = .ok p ∧ NoReserved
     exact ⟨p, rfl, h.1, h.2, by decide +kernel⟩
   | err e env' => rw [hp] at h; cases h
   | panic => rw [hp] at h; cases h
+
+/-- `C01_parse_edit_serialise_values` instantiated at `fullCalls` (parse, new element, append, set attribute,
+    `create_missing_prefixes`): the text is accepted inside the guards, the tables after the parse are
+    `nameTableOK`, the values handed to the three editing calls are in the domain of the tables at the time
+    (`Store.argValuesOKAlong`), consolidation was never off, the edited document has one root, no `xml:id`
+    twice, writable names — so it serialises and parses back to itself.  No `valueOK` / `envOK` hypothesis
+    on the edited tree is evaluated. -/
+example : ∃ s p', toXmlString ((PStore.init Env.fresh).run fullCalls).env fullRoot.erase [] = .ok s ∧
+    parseString .document ((PStore.init Env.fresh).run fullCalls).env s = .ok p' ∧ p'.tree = fullRoot.erase := by
+  have hacc : (match parseString .document Env.fresh fullText with
+      | .ok p => NoReservedDecls p.env p.tree && PlainPiTargets p.env p.tree && nameTableOK p.env
+      | _ => false) = true := by decide +kernel
+  cases hp : parseString .document Env.fresh fullText with
+  | err e env' => rw [hp] at hacc; cases hacc
+  | panic => rw [hp] at hacc; cases hacc
+  | ok p =>
+    rw [hp] at hacc
+    simp only [Bool.and_eq_true] at hacc
+    have ha : ((PStore.init Env.fresh).run [.parse .document fullText]).store.argValuesOKAlong c01FullEdits := by
+      refine ⟨?_, trivial, ?_, trivial, trivial⟩
+      · show valueOK _ (.element 3) = true; decide +kernel
+      · show valueOK _ (.attribute 3 ['v']) = true; decide +kernel
+    obtain ⟨s, p', h1, h2, h3, _, _⟩ := C01_parse_edit_serialise_values Env.fresh (by decide +kernel) fullText p hp
+      hacc.1.1 hacc.1.2 hacc.2 c01FullEdits (by decide) ha ((PStore.init Env.fresh).run fullCalls) rfl
+      (by decide +kernel) fullRoot fullRoot_mem rfl (by decide +kernel) (by decide +kernel) (by decide +kernel)
+    exact ⟨s, p', h1, h2, h3⟩
 
 end ParseEditSerialise
 
